@@ -17,10 +17,15 @@ VERIF = os.path.dirname(os.path.dirname(os.path.abspath(__file__)))
 def main():
     src = sys.argv[1]
     rows = []
-    for res in sorted(glob.glob(os.path.join(src, "C??-M?.json")) + glob.glob(os.path.join(src, "R2-C??-M?.json")) + glob.glob(os.path.join(src, "R3-C??-M?.json"))):
+    for res in sorted(glob.glob(os.path.join(src, "C??-M?.json")) + glob.glob(os.path.join(src, "R2-C??-M?.json")) + glob.glob(os.path.join(src, "R3-C??-M?.json")) + glob.glob(os.path.join(src, "R4-?-M?.json"))):
         name = os.path.basename(res)[:-5]
         wt, k = name.rsplit("-M", 1)
         prop = wt[-3:]
+        if name.startswith("R4-"):
+            # fourth round: one author per pair of properties, mutants 1-2 target the first, 3-4 the second
+            pairs = {"A": ("C01", "C16"), "B": ("C02", "C20"), "C": ("C03", "C17"), "D": ("C04", "C11"), "E": ("C05", "C14"),
+                     "F": ("C06", "C07"), "G": ("C08", "C12"), "H": ("C09", "C13"), "I": ("C10", "C19"), "J": ("C15", "C18")}
+            prop = pairs[wt[-1]][0 if int(k) <= 2 else 1]
         d = os.path.join(src, wt, f"MUTANT{k}")
         if not os.path.isdir(d):
             continue
